@@ -7,6 +7,7 @@ class Spec(runner.Spec):
     prop = "C17"
     streams = [proto_streams.RoundTrip(), proto_streams.PeqStream(), proto_streams.DecCorrespondence()]
     assumptions = [
+        "one value per writer is what the property speaks of; in addition every `enc` request writes the value twice with ONE ProtobufWriter and compares what the second write appends with the octets of a fresh writer (`reuse:`) — flagged for SEQUENCE/SET/ENUMERATED/list roots; a root CHOICE leaves the writer of the code as it is in the nested state, reuse after it is outside the property",
         "dev profile (overflow checks, debug assertions), as used by the project's tests; release profile not modelled",
         "types: the zoo harness/zoo/*.asn1 compiled by the real converter (about 300 types: every integer width/sign, strings, BIT/OCTET STRING, NULL, ENUMERATED, nested SEQUENCE/SET/CHOICE, CHOICE in CHOICE, SEQUENCE OF in SEQUENCE OF); the descriptor is what the codec sees through its Constraint traits",
         "the generated types do not implement ProtobufEq (the derive exists, the generator does not emit it, and `Null` has no implementation): the relation is read off peq.rs + derive_protobuf_eq.rs, modelled as Val.protoEq, and decided independently in tools/proto_streams.py (the two are compared on every round trip); stream proto-peq calls the crate's own implementations for the leaf types, Vec<T> and Option<T> (absent vs T::default()) and follows the derive for SEQUENCE/CHOICE — an OPTIONAL SEQUENCE/CHOICE/ENUMERATED has no crate implementation to call and is compared between model and checker only",
